@@ -414,6 +414,11 @@ class Ctx:
         hyps = relevant(self.hypotheses(extra_terms), goal)
         meta = dict(meta or {})
         meta["seq"] = self.ob_seq = getattr(self, "ob_seq", -1) + 1
+        if getattr(self, "matrix_compare", False) or "matalg" in self.uf_cache:
+            # the path works with abstract matrices (normal forms; elements of product words are uninterpreted element functions,
+            # also inside summands): a `sat` answer says two of them were not IDENTIFIED by the rewriting laws, not that they differ
+            meta["matrix_layer"] = True
+        self.matrix_compare = False
         tgt = getattr(self, "validate_target", None)
         if tgt is not None and tgt == (name, meta["seq"]):
             self.validation_result = self._validate_here(hyps, goal)
